@@ -229,8 +229,60 @@ def r3_atomic_take(chk):
         r.require(cfg, 1, "REP reply path")
 
 
+def r4_detach_resets_only_for_its_peer(chk):
+    r = chk.rule("R4", "a peer's detach resets the REQ/REP state only if that very connection is the one awaited", "T3 guarded-by + T11 derives-from",
+                 "in the pipe_detached handlers of REQ and REP every write of the protocol state is guarded by an equality between the connection key stored in the state "
+                 "(target_endpoint_uri / source_pipe_read_id) and the key of the detaching pipe, compared as stored: no crate function is applied to either side "
+                 "(a normalised key, e.g. an inproc URI without its #<id>, is shared by several connections, so an unrelated peer's detach would let a second send() through)")
+    for cfg, prog in chk.configs():
+        n = 0
+        for body in prog.bodies.values():
+            if body.impl_trait != "socket::ISocket" or body.name != "pipe_detached" or not body.kind.startswith("coroutine"):
+                continue
+            if body.impl_self not in ("socket::req_socket::ReqSocket", "socket::rep_socket::RepSocket"):
+                continue
+            for blk, i, st in body.statements():
+                if st["k"] != "assign" or not st["p"]["pr"]:
+                    continue
+                pp = body.place_path(st["p"])
+                if not re.search(r"Mutex::lock\(self\.state\)|^op_state_guard|^guard$", body.provenance({"c": "copy", "p": {"l": st["p"]["l"], "pr": [], "s": "", "ty": ""}})) and "self.state" not in pp:
+                    continue
+                if st["p"]["pr"][-1][0] != "deref" or body.blocks[blk]["cleanup"]:
+                    continue
+                n += 1
+                key = "%s|state reset keyed by the detaching connection" % short(body.root)
+                eqs = []
+                for g in body.guards(blk, select_aware=False):
+                    a = g.atom
+                    if a[0] == "call" and a[1].name in ("eq", "ne") and len(a[1].args) == 2 and g.truth is not None and ((a[1].name == "eq") == g.truth):
+                        eqs.append((g, a[1].args[0], a[1].args[1]))
+                    elif a[0] == "cmp" and a[1] in ("Eq", "Ne") and g.truth is not None and ((a[1] == "Eq") == g.truth):
+                        eqs.append((g, a[2], a[3]))
+                good = None
+                why = "no equality between a key stored in the state and the detaching pipe's key guards the write"
+                for g, x, y in eqs:
+                    sx, sy = body.data_slice(x), body.data_slice(y)
+                    both = sx | sy
+                    stored = any(p_[0] == "place" and re.search(r"target_endpoint_uri|source_pipe_read_id|peer_info|ExpectingReply|ReceivedRequest", p_[1]) for p_ in both)
+                    mine = any(p_[0] == "place" and re.search(r"pipe_read_id", p_[1]) for p_ in both) or any(p_[0] == "call" and p_[1].endswith("HashMap::remove") for p_ in both)
+                    if not (stored and mine):
+                        continue
+                    transformed = sorted(p_[1] for p_ in both if p_[0] == "call" and prog.body(p_[1]) is not None)
+                    if transformed:
+                        why = "the keys are compared after passing through %s: connections that differ only in what that function drops are taken for the awaited one" % ", ".join(short(t) for t in transformed)
+                        continue
+                    good = g
+                    break
+                if good is not None:
+                    r.ok(cfg, key, where(body, blk), "guarded by an equality of untransformed keys (bb%d)" % good.s)
+                else:
+                    r.bad(cfg, key, where(body, blk), "%s: the detach of an unrelated peer resets the lock-step state, so send();send() (REQ) or recv();recv() (REP) both succeed and a late reply is taken for the answer to the next request" % why)
+        r.require(cfg, 2, "state writes in REQ/REP pipe_detached")
+
+
 def run(chk):
     chk.undecided = ["linearizability of arbitrary concurrent histories"]
     r1_no_check_then_act(chk)
     r2_refusal_changes_nothing(chk)
     r3_atomic_take(chk)
+    r4_detach_resets_only_for_its_peer(chk)
